@@ -273,6 +273,42 @@ func c06Work(c *engine.Ctx) {
 			}
 		}
 	}
+	// character sweep: every code point of U+0080..U+00FF, U+1680, U+180E, U+2000..U+206F, U+3000, U+FEFF and samples of the
+	// other planes inside each kind of token that takes arbitrary characters (the code points next to the two
+	// line terminators U+2028/U+2029 and to the Zs blanks are where a byte-wise test can go wrong)
+	{
+		var cps []rune
+		for r := rune(0x80); r <= 0xFF; r++ {
+			cps = append(cps, r)
+		}
+		for r := rune(0x2000); r <= 0x206F; r++ {
+			cps = append(cps, r)
+		}
+		cps = append(cps, 0x1680, 0x180E, 0x20A8, 0x20A9, 0x2128, 0x2129, 0x22A8, 0x3000, 0x3028, 0xA028, 0xE028, 0xFEFF, 0xFFFD, 0x10000, 0x1F600, 0x2028A)
+		type ctx struct {
+			pre, post string
+			re        bool // a regular-expression literal starts right after "x="
+		}
+		ctxs := []ctx{{"x=/a", "b/g", true}, {"x=/[", "]/", true}, {"x=/[a", "/]/u", true}, {"x=/\\", "/", true}, {"x=/a/", "", true}, {"'a", "b'", false}, {"\"", "\"", false},
+			{"`a", "b`", false}, {"`${`", "`}`", false}, {"//a", "b\nx", false}, {"/*a", "b*/x", false}, {"a", "b", false}, {"a ", " b", false}, {"1", "", false}, {"", "=1", false}, {"#a", "", false}, {"'\\", "'", false}}
+		for _, r := range cps {
+			k++
+			if !c.Mine(k) {
+				continue
+			}
+			for _, cx := range ctxs {
+				begin()
+				sb.WriteString(cx.pre)
+				sb.WriteString(string(r))
+				sb.WriteString(cx.post)
+				if cx.re {
+					offs = append(offs, "2")
+				}
+				run()
+				c.Count("character-sweep", 1)
+			}
+		}
+	}
 	c.Sample("pair in template: `a${" + "1." + "" + ".5" + "}b`")
 	c.Sample("triple: a /**/ /a/ with RegExp() called at the offset of the literal")
 	// all strings over the JS alphabets (division goal only)
@@ -315,7 +351,7 @@ func c06Finish(c *engine.Ctx, cov map[string]interface{}) string {
 func init() {
 	register(&engine.Check{
 		ID: "C06", Level: "model_checking",
-		Rule:        "vocabulary of ~250 token spellings (every reserved and contextual word, every punctuator, identifiers with Unicode letters/ZWNJ/\\u escapes, private names, numeric literals of all radixes with separators and BigInt suffix, strings with every escape and line-continuation kind, templates incl. nested substitutions, all comment kinds, every whitespace and line-terminator kind, regular-expression literals with classes and escaped slashes): all ordered pairs × 7 separators, pairs inside 4-6 template/brace wrappers, all triples over a 60-spelling core × separators; all strings ≤k atoms over the JS alphabets; edit balls around the JS seeds. js.Lexer (RegExp() called where the generator placed a regexp literal) must return exactly the reference lexer's (type,text) list whenever the reference accepts the input; canonical spelling of every operator/punctuator/keyword token; Keywords table entry by entry",
+		Rule:        "vocabulary of ~250 token spellings (every reserved and contextual word, every punctuator, identifiers with Unicode letters/ZWNJ/\\u escapes, private names, numeric literals of all radixes with separators and BigInt suffix, strings with every escape and line-continuation kind, templates incl. nested substitutions, all comment kinds, every whitespace and line-terminator kind, regular-expression literals with classes and escaped slashes): all ordered pairs × 7 separators, pairs inside 4-6 template/brace wrappers, all triples over a 60-spelling core × separators; all strings ≤k atoms over the JS alphabets; edit balls around the JS seeds; 400 code points (U+0080..U+00FF, U+2000..U+206F, blanks and look-alikes of the line terminators in other blocks) inside 17 token contexts (regular-expression body, class and escape, strings, templates, comments, identifiers, blanks). js.Lexer (RegExp() called where the generator placed a regexp literal) must return exactly the reference lexer's (type,text) list whenever the reference accepts the input; canonical spelling of every operator/punctuator/keyword token; Keywords table entry by entry",
 		Assumptions: []string{"reference = hand-written ECMA-262 §12 lexer (longest match, brace/template stack), consecutive whitespace and consecutive line terminators are one token each as in the library", "inputs the reference places outside the lexical grammar (unterminated literals, identifier or digit directly after a number, legacy octal, stray characters, invalid UTF-8) are not compared"},
 		Setup:       c06Setup, Work: c06Work, Finish: c06Finish,
 	})
